@@ -23,7 +23,8 @@ EXTENDS Wire, FiniteSets
 ---------------------------------------------------------------------------
 (* Header values as the public API presents them.                          *)
 (*   ty, cid, ts/td/wnd as <<hi16, lo16>>, seq, ack,                        *)
-(*   hs/sack : selective ACK present / its 8 bytes (64 bits, LSB first),   *)
+(*   hs/sack/sl : selective ACK present / its first 64 bits as 8 bytes     *)
+(*             (LSB first) / its length in bits (8 * bytes kept, <= 64),   *)
 (*   hc/cr   : close reason present / its 16-bit value.                    *)
 
 Pad8(d) == [i \in 1 .. 8 |-> IF i <= Len(d) THEN d[i] ELSE 0]
@@ -38,6 +39,9 @@ ApiFields(a) == [ty |-> a.ty, cid |-> a.cid, ts |-> a.ts, td |-> a.td,
 (* does not say which one wins when a chain carries several: a conforming  *)
 (* parser reports one of them.                                             *)
 Sacks(h) == LET s == SackExts(h) IN [i \in 1 .. Len(s) |-> Pad8(s[i].data)]
+(* ... and their lengths in bits, as far as 64 bits reach *)
+Min8(n) == IF n < 8 THEN n ELSE 8
+SackLens(h) == LET s == SackExts(h) IN [i \in 1 .. Len(s) |-> Min8(Len(s[i].data)) * 8]
 
 (* Close reason (extension 3, libtorrent): four bytes, the value in the    *)
 (* low 16 bits.  Only a 4-byte extension 3 can be produced by the          *)
@@ -71,7 +75,8 @@ Expected(b) ==
 (* Serialisation of an API header value.  BEP-29 fixes the layout; the     *)
 (* order of the two extensions is not dictated by the property, so both    *)
 (* orders are conforming.                                                  *)
-SackExt(a) == IF a.hs THEN << [id |-> EXT_SACK, data |-> a.sack] >> ELSE << >>
+(* a selective ACK of sl bits goes out as its first sl / 8 bytes (the API builds 64 bits: 8 bytes) *)
+SackExt(a) == IF a.hs THEN << [id |-> EXT_SACK, data |-> SubSeq(a.sack, 1, a.sl \div 8)] >> ELSE << >>
 CrExt(a)   == IF a.hc THEN << [id |-> EXT_CLOSE_REASON, data |-> <<0, 0, Hi(a.cr), Lo(a.cr)>>] >> ELSE << >>
 SpecHdr(a, exts) == [type |-> a.ty, cid |-> a.cid, ts |-> a.ts, tsdiff |-> a.td, wndhl |-> a.wnd,
                      seq |-> a.seq, ack |-> a.ack, exts |-> exts]
@@ -83,6 +88,7 @@ Presents(h, a) ==
     /\ h.ok
     /\ Fields(h) = ApiFields(a)
     /\ Sacks(h) = (IF a.hs THEN << Pad8(a.sack) >> ELSE << >>)
+    /\ SackLens(h) = (IF a.hs THEN << a.sl >> ELSE << >>)
     /\ CrVals(h) = (IF a.hc THEN << a.cr >> ELSE << >>)
     /\ Unknowns(h) = << >>
 
@@ -97,6 +103,7 @@ ApiOf(h) ==
     IN  [ty |-> h.type, cid |-> h.cid, ts |-> h.ts, td |-> h.tsdiff, wnd |-> h.wndhl,
          seq |-> h.seq, ack |-> h.ack,
          hs |-> s # << >>, sack |-> IF s = << >> THEN << >> ELSE s[Len(s)],
+         sl |-> IF s = << >> THEN 0 ELSE SackLens(h)[Len(s)],
          hc |-> c # << >>, cr |-> IF c = << >> THEN 0 ELSE c[Len(c)]]
 
 ---------------------------------------------------------------------------
@@ -182,7 +189,7 @@ F9Pairs  == { [DefF9 EXCEPT ![k[1]] = v[1], ![k[2]] = v[2]] :
 
 ApiHdr(ty, f, hs, sack, hc, cr) ==
     [ty |-> ty, cid |-> f[1], ts |-> <<f[2], f[3]>>, td |-> <<f[4], f[5]>>, wnd |-> <<f[6], f[7]>>,
-     seq |-> f[8], ack |-> f[9], hs |-> hs, sack |-> sack, hc |-> hc, cr |-> cr]
+     seq |-> f[8], ack |-> f[9], hs |-> hs, sack |-> sack, sl |-> IF hs THEN 64 ELSE 0, hc |-> hc, cr |-> cr]
 
 ---------------------------------------------------------------------------
 (* Unit tests of the operators (DESIGN 3.6).  The first is the datagram of *)
